@@ -95,14 +95,15 @@ func (alloc *BitmapAllocator) setupPoolBitmaps() *kernel.Error {
 			return true
 		}
 
+		regionStartFrame, regionEndFrame, ok := regionFrames(region)
+		if !ok {
+			return true
+		}
+
 		alloc.poolsHdr.Len++
 		alloc.poolsHdr.Cap++
 
-		// Reported addresses may not be page-aligned; round up to get
-		// the start frame and round down to get the end frame
-		regionStartFrame := mm.Frame(((uintptr(region.PhysAddress) + pageSizeMinus1) & ^pageSizeMinus1) >> mm.PageShift)
-		regionEndFrame := mm.Frame((uintptr(region.PhysAddress+region.Length) & ^pageSizeMinus1)>>mm.PageShift) - 1
-		pageCount := uint32(regionEndFrame - regionStartFrame)
+		pageCount := uint32(regionEndFrame - regionStartFrame + 1)
 		alloc.totalPages += pageCount
 
 		// To represent the free page bitmap we need pageCount bits. Since our
@@ -143,9 +144,11 @@ func (alloc *BitmapAllocator) setupPoolBitmaps() *kernel.Error {
 			return true
 		}
 
-		regionStartFrame := mm.Frame(((uintptr(region.PhysAddress) + pageSizeMinus1) & ^pageSizeMinus1) >> mm.PageShift)
-		regionEndFrame := mm.Frame((uintptr(region.PhysAddress+region.Length) & ^pageSizeMinus1)>>mm.PageShift) - 1
-		bitmapBytes := ((uintptr(regionEndFrame-regionStartFrame) + 63) &^ 63) >> 3
+		regionStartFrame, regionEndFrame, ok := regionFrames(region)
+		if !ok {
+			return true
+		}
+		bitmapBytes := ((uintptr(regionEndFrame-regionStartFrame+1) + 63) &^ 63) >> 3
 
 		alloc.pools[poolIndex].startFrame = regionStartFrame
 		alloc.pools[poolIndex].endFrame = regionEndFrame
@@ -161,6 +164,21 @@ func (alloc *BitmapAllocator) setupPoolBitmaps() *kernel.Error {
 	})
 
 	return nil
+}
+
+// regionFrames returns the first and the last frame that lie wholly inside
+// region. Reported addresses may not be page-aligned so the start address is
+// rounded up and the end address is rounded down. If the region does not
+// contain a whole frame, ok is false.
+func regionFrames(region *multiboot.MemoryMapEntry) (start, end mm.Frame, ok bool) {
+	pageSizeMinus1 := mm.PageSize - 1
+	start = mm.Frame(((uintptr(region.PhysAddress) + pageSizeMinus1) & ^pageSizeMinus1) >> mm.PageShift)
+	endExclusive := mm.Frame((uintptr(region.PhysAddress+region.Length) & ^pageSizeMinus1) >> mm.PageShift)
+	if endExclusive <= start {
+		return 0, 0, false
+	}
+
+	return start, endExclusive - 1, true
 }
 
 // markFrame updates the reservation flag for the bitmap entry that corresponds
